@@ -88,6 +88,9 @@ SEMANTIC_PAIRS = (
     'PM3_full_cascade_kissel', 'PM3_pure_kissel', 'PM3_rad_cascade_kissel', 'PM4_auger_cascade_kissel',
     'PM4_full_cascade_kissel', 'PM4_pure_kissel', 'PM4_rad_cascade_kissel', 'PM5_auger_cascade_kissel',
     'PM5_full_cascade_kissel', 'PM5_pure_kissel', 'PM5_rad_cascade_kissel', 'RadRate',
+    # crystal functions: the Java twin is the method of Crystal_Struct that the static wrapper delegates to (its cosd/sind/pow2 helpers
+    # inlined, its fields read as the members of the record that C receives)
+    'Bragg_angle', 'Crystal_F_H_StructureFactor', 'Crystal_UnitCellVolume', 'Crystal_dSpacing', 'Q_scattering_amplitude',
 )
 
 
@@ -215,10 +218,8 @@ def run(prog, tier):
         drop = ('re', 'im', 'class')          # xrlComplex parts (a constructor call in Java); Java reflection
         fa = Counter({k: v for k, v in a.fields.items() if k not in drop})
         fb = Counter({k: v for k, v in b.fields.items() if k not in drop})
-        if not getattr(b, 'delegated', None):
-            # only the methods of the record classes are translated expression by expression; elsewhere one side may
-            # repeat an access (a branch per record type in C, a loop variable in Java): compare as sets
-            fa, fb = Counter(set(fa)), Counter(set(fb))
+        # how often a field is spelled out is a matter of style (a hoisted `atom = &cc->atom[i]` mentions it once): compare as sets
+        fa, fb = Counter(set(fa)), Counter(set(fb))
         decide('fields', fa == fb, 'the two translations do not use the same record fields: only in C %s, only in Java %s (C %s:%d)' % (
             dict(fa - fb), dict(fb - fa), cf['rel'], cf['ln']), 'same multiset of record fields (%d)' % sum(fa.values()))
         # D'' result guards: how a looked-up or computed value is tested before it is returned
@@ -288,14 +289,15 @@ def parser_twin(prog, chk, C, J):
     cf = C.fingerprint('CompoundParserSimple', set(J.funcs) | {'CompoundParserSimple'})
 
     def keep(g):
-        return not re.search(r'ctype|isDigit|isLowerCase|isUpperCase|isdigit|islower|isupper|endPtr|NULL|null', g)
+        # character tests (ctype predicates, comparisons with a character literal) are decided per character class below
+        return not re.search(r"ctype|isDigit|isLowerCase|isUpperCase|isLetter|isdigit|islower|isupper|isalpha|endPtr|NULL|null|'.'", g)
 
     def norm(g):
         return re.sub(r'\b(compoundString|csa)\b', 'S', g)
     a = Counter(norm(g) for g, n_ in cf.guards.items() for _ in range(n_) if keep(g))
     b = Counter(norm(g) for g, n_ in jf.guards.items() for _ in range(n_) if keep(g))
     f = C.funcs['CompoundParserSimple']
-    chk.decide(a == b and sum(a.values()) >= 8, 'twin-parser', 'java/compoundData.java', 'CompoundParserSimple', 'scanner-error-exits',
+    chk.decide(a == b and sum(a.values()) >= 7, 'twin-parser', 'java/compoundData.java', 'CompoundParserSimple', 'scanner-error-exits',
                'java/compoundData.java:%d' % jm[0]['ln'],
                'the formula scanners reject different inputs: error tests only in C %s, only in Java %s (C %s:%d)' % (
                    dict(a - b), dict(b - a), f['rel'], f['ln']), why='same %d counter / value tests lead to an error' % sum(a.values()))
@@ -431,6 +433,8 @@ def writer_twins(prog, chk, C):
         diffs = []
         for cat in ('consts', 'calls', 'lits', 'tables'):
             ca, cb = getattr(a, cat), getattr(b, cat)
+            if cat == 'tables':          # how often a table cell is read is style (a hoisted `rate = T[Z][i]`): which tables are read is not
+                ca, cb = Counter(set(ca)), Counter(set(cb))
             if ca != cb:
                 diffs.append('%s: only in src/pr_data.c %s, only in the Java writer %s' % (cat, dict(ca - cb), dict(cb - ca)))
         chk.decide(not diffs, 'writer-copy', W, n, 'same-derivation', '%s:%d' % (W, wf[n]['ln']),
@@ -746,6 +750,8 @@ def file_constants(prog, J=None):
             break                      # the scalar head of the file ends at the first table
         if a[2].upper() in inits:
             out.append((b[2], b[5], a[2], inits[a[2].upper()][0], a[5], inits[a[2].upper()][1]))
+        elif re.match(r'^[A-Z][A-Z0-9_]*$', a[2]) and cvalue(prog, a[2]) is not None:
+            out.append((b[2], b[5], a[2], a[2], a[5], a[2]))      # the macro itself is handed to the print helper
     return out
 
 
